@@ -152,6 +152,10 @@ _SUBJECT = {"rsa": "Verif RSA One", "ec": "Verif EC One", "dsa": "Verif DSA One"
             "rsa2": "Verif RSA Two", "ec2": "Verif EC Two", "dsa2": "Verif DSA Two"}
 _SERIAL = {"rsa": 0x11A1B1C1D1, "ec": 0x22A2B2C2D2, "dsa": 0x33A3B3C3D3,
            "rsa2": 0x44A4B4C4D4, "ec2": 0x55A5B5C5D5, "dsa2": 0x66A6B6C6D6}
+# second certificates for the SAME keys whose serial number has the top bit of its first octet set (DER needs a leading 00)
+HI_SERIAL_CERTS = {"rsa9": ("rsa", 0xC8A1B1C1D1, "Verif RSA Nine"), "ec9": ("ec", 0xD9A2B2C2D2, "Verif EC Nine"),
+                   "dsa9": ("dsa", 0xEAA3B3C3D3, "Verif DSA Nine")}
+CERT_NAMES = KEY_NAMES + sorted(HI_SERIAL_CERTS)
 _cache = {}
 
 
@@ -185,10 +189,23 @@ def genkeys():
                                     serialization.NoEncryption()))
         with open(os.path.join(KEYDIR, n + ".cert.pem"), "wb") as f:
             f.write(cert.public_bytes(serialization.Encoding.PEM))
+    for n, (kn, serial, cn) in HI_SERIAL_CERTS.items():
+        cp = os.path.join(KEYDIR, n + ".cert.pem")
+        if os.path.exists(cp):
+            continue
+        k = key(kn)
+        name = x509.Name([x509.NameAttribute(NameOID.COUNTRY_NAME, "ZZ"), x509.NameAttribute(NameOID.ORGANIZATION_NAME, "verif"),
+                          x509.NameAttribute(NameOID.COMMON_NAME, cn)])
+        cert = (x509.CertificateBuilder().subject_name(name).issuer_name(name).public_key(k.public_key()).serial_number(serial)
+                .not_valid_before(datetime.datetime(2020, 1, 1)).not_valid_after(datetime.datetime(2050, 1, 1))
+                .sign(k, hashes.SHA256()))
+        with open(cp, "wb") as f:
+            f.write(cert.public_bytes(serialization.Encoding.PEM))
 
 
 def key(name):
-    """-> private key object (cryptography)"""
+    """-> private key object (cryptography); the high-serial certificate names map to the key they were issued for"""
+    name = HI_SERIAL_CERTS.get(name, (name,))[0]
     if ("k", name) not in _cache:
         from cryptography.hazmat.primitives import serialization
         with open(os.path.join(KEYDIR, name + ".key.pem"), "rb") as f:
@@ -302,6 +319,26 @@ def signer_info(sf, keyname, alg, signed_attrs, refer=None, sign_over=None, attr
         tbs = sf
     si["signature"] = raw_sign(keyname, alg, tbs)
     return cms.SignerInfo(si)
+
+
+def signer_info_with_serial(sf, keyname, alg, signed_attrs, serial_octets):
+    """SignerInfo (raw bytes) signed with `keyname` and referring to keyname's certificate by its issuer, but with the given raw
+    CONTENT OCTETS as serial INTEGER (any encoding: sign octet dropped / added, other value ...).  The signature stays valid:
+    neither the signed attributes nor the .SF contain the signer identifier."""
+    si = signer_info(sf, keyname, alg, signed_attrs)
+    raw = si.dump()
+    sid = si["sid"].dump()
+    new_sid = der(0x30, si["sid"].chosen["issuer"].dump() + der(0x02, serial_octets))
+    hl = 2 if raw[1] < 0x80 else 2 + (raw[1] & 0x7F)
+    body = raw[hl:]
+    assert body.count(sid) == 1
+    return der(0x30, body.replace(sid, new_sid))
+
+
+def serial_octets(name):
+    """minimal DER content octets of the serial number of certificate `name`"""
+    from asn1crypto import x509
+    return x509.Certificate.load(cert_der(name))["tbs_certificate"]["serial_number"].contents
 
 
 def signer_info_ber_attrs(sf, keyname, alg, form, sign_over):
